@@ -171,7 +171,7 @@ impl Shadow {
     }
 }
 
-fn dump_hash(m: &[(Vec<u8>, Set)]) -> u64 {
+pub fn dump_hash(m: &[(Vec<u8>, Set)]) -> u64 {
     let mut h: u64 = 0;
     for (k, s) in m {
         h = h.rotate_left(7) ^ fnv64(&[k]) ^ set_hash(s).rotate_left(13);
